@@ -1,5 +1,5 @@
 """C13 - quantity arithmetic obeys the field laws, including looked-up facts."""
-import json, time
+import json, re, time
 from fractions import Fraction as F
 from core import build, unitgen as G, units_ref as R, facts as FX
 from core.driver import Driver, DriverDied, DriverTimeout
@@ -33,6 +33,12 @@ def shard(p):
         cand = []
         for f in p["facts"]:
             cand.append((" ".join(f["tokens"]), True))
+            if p.get("neighbours_only") and f.get("description"):
+                # the fact addressed by the words of its DESCRIPTION (natural-language phrases share much longer prefixes than the
+                # search tokens do: `length of a solar day on the planet mars` / `... venus`); used only if it evaluates to one value
+                ws = [w for w in re.sub(r"[^A-Za-z0-9°' ]", " ", f["description"]).split() if w.lower() != "to"]
+                if ws and not ws[0][0].isdigit() and not any(w[0].isdigit() for w in ws):
+                    cand.append((" ".join(ws).lower(), True))
         for _ in range(p["n_lit"]):
             fs = V.rand_factors(rng, nmax=rng.choice([1, 1, 2, 3]))
             xs, x = mag(rng)
@@ -61,6 +67,8 @@ def shard(p):
         order = list(facts_ops)
         rng.shuffle(order)
         firsts = order + [rng.choice(pool) for _ in range(p["n_triples"])]
+        if p.get("neighbours_only"):
+            firsts = []
         for a in firsts:
             b, c = pick_class(a), pick_class(a)
             pos = rng.randrange(3)
@@ -84,6 +92,37 @@ def shard(p):
             isfact = a_[3] or b_[3] or c_[3]
             for law, q1, q2, const in inst:
                 checks.append((law, q1, q2, const, isfact or x[3] or y[3]))
+        # near-duplicate operands: facts whose phrases share a long prefix (neighbours in sorted order, e.g. `population less developed
+        # regions excluding china` / `... excluding least developed countries`), both in ONE expression: whatever the evaluator
+        # remembers about a phrase within a query must not confuse them (seed C13-f)
+        fsorted = sorted((o for o in pool if o[3]), key=lambda o: o[0])
+        for a_, b_ in zip(fsorted, fsorted[1:]):
+            if a_[2] != b_[2]:
+                continue
+            k = 0
+            while k < min(len(a_[0]), len(b_[0])) and a_[0][k] == b_[0][k]:
+                k += 1
+            if k < 12:
+                continue
+            A, B = a_[0], b_[0]
+            checks.append(("add-comm", "%s + %s" % (A, B), "%s + %s" % (B, A), None, True))
+            checks.append(("mul-comm", "%s * %s" % (A, B), "%s * %s" % (B, A), None, True))
+            checks.append(("sub-self", "(%s - %s) + %s - %s" % (A, B, B, A), None, (F(0), a_[2][0]), True))
+        if p.get("neighbours_only"):
+            # ... and pairs of facts addressed through phrases that share a LONG prefix by construction: the same run of words the
+            # database does not know (they change no answer) in front of each fact's own words
+            pads = ["qqzz " * k for k in (4, 7, 13, 26)] + ["the value of the quantity that is known as the ", "xq " * 11]
+            fl = [o for o in pool if o[3]]
+            for _ in range(160):
+                a_ = rng.choice(fl)
+                b_ = rng.choice(by_dims[a_[2]])
+                if not b_[3] or a_[0] == b_[0]:
+                    continue
+                pad = rng.choice(pads)
+                A, B = pad + a_[0], pad + b_[0]
+                checks.append(("add-comm", "%s + %s" % (A, B), "%s + %s" % (B, A), None, True))
+                checks.append(("mul-comm", "%s * %s" % (A, B), "%s * %s" % (B, A), None, True))
+                checks.append(("add-assoc", "(%s + %s) + %s" % (A, B, A), "%s + (%s + %s)" % (A, B, A), None, True))
         # products in which ONE unit recurs in all three operands, so that its power accumulates (au^-2 * au^-2 * s ...): the
         # multiplicative laws on exactly the operands whose intermediate results differ most between the two groupings (seed C13-e)
         for _ in range(p["n_triples"] // 4):
@@ -157,10 +196,11 @@ def run(tier, seed):
     bins = {k: build.build(k)["vdriver"] for k in ("dbg", "rel")}
     with Driver(bins["dbg"]) as d:
         facts, _ = FX.load(d)
-    ty = [{"tokens": f["tokens"]} for f in facts if FX.typeable(f["tokens"])]
+    ty = [{"tokens": f["tokens"], "description": f["description"]} for f in facts if FX.typeable(f["tokens"])]
     nlit, ntrip = (600, 700) if tier == "quick" else (3000, 9000)
     payloads = [{"seed": seed, "shard": i, "facts": ty[i::NCPU] if tier == "quick" else ty, "n_lit": nlit, "n_triples": ntrip, "bin": bins["dbg"], "kind": "dbg"} for i in range(NCPU)]
     payloads += [{"seed": seed, "shard": 100 + i, "facts": ty[i::NCPU], "n_lit": nlit // 3, "n_triples": ntrip // 3, "bin": bins["rel"], "kind": "rel"} for i in range(NCPU)]
+    payloads.append({"seed": seed, "shard": 50, "facts": ty, "n_lit": 0, "n_triples": 0, "bin": bins["dbg"], "kind": "dbg", "neighbours_only": True})    # all facts together: sorted neighbours
     acc = run_shards(shard, payloads)
     acc.counters["typeable_facts"] = len(ty)
     return finish(PID, tier, seed, "exploration", acc, RULE, t0,
